@@ -262,6 +262,18 @@ def gen_c15(r, n, tier):
             entries.append(b"")
         t["path"] = b":".join(entries)
         t["argv"] = [cmd, b"arg"]
+        if r.chance(1, 3) and len(cmd) <= 255:
+            # the child is given a PATH of its own: the search is made against the parent's all the same
+            lay["mkdirs"].append("decoy")
+            how = r.choice(["decoy-has-it", "decoy-has-it", "decoy-empty", "reversed"])
+            if how == "decoy-has-it":
+                lay["symlinks"][os.fsencode(os.path.join("decoy", os.fsdecode(cmd)))] = STUB
+                cpath = b"$WD/decoy"
+            elif how == "decoy-empty":
+                cpath = b"$WD/decoy"
+            else:
+                cpath = b":".join(reversed(entries))
+            t["env"] = [(b"OTHER", b"1"), (b"PATH", cpath)] + ([(b"PATH", cpath + b":/usr/bin")] if r.chance(1, 3) else [])
         if shape == "slash":
             # a name with a slash: used as given, relative to the child's cwd, whatever PATH offers
             lay["mkdirs"].append("sl")
@@ -424,7 +436,7 @@ def scenario_of(t):
         def res(b):
             return b.replace(b"$WD", wdb).replace(b"$STUB", STUB)
         req = {"argv": [res(a) for a in t["argv"]], "exe": res(t["exe"]) if t["exe"] is not None else None,
-               "env": [(k, v) for k, v in t["env"]] if t["env"] is not None else None,
+               "env": [(k, res(v)) for k, v in t["env"]] if t["env"] is not None else None,
                "cwd": res(t["cwd"]) if t["cwd"] is not None else None,
                "path": res(t["path"]) if t["path"] is not None else None}
         if t.get("cwd_pad_to"):
@@ -660,7 +672,7 @@ def judge_all(chk, pid, scns, tag):
         if oe == "inherit":
             oe = None
         elif oe == "?":
-            oe = py_env(req["env"]) if not o["forked"] else []
+            oe = py_env(req["env"])        # no exec was issued: the block is not observable
         occ = o["chdir"] if o["forked"] else req["cwd"]
         items.append((req, fs, oa, oe, occ, [e[0] for e in o["execs"]], out))
         idx.append(s)
